@@ -260,7 +260,13 @@ def tlc(work, spec, cfg, files=None, workers=1, timeout=1800, extra=None, java_o
     files: {name: text} written next to the spec (trace / constant data read through the Json module)."""
     name = name or ('tlc-%s-%d' % (spec, int(time.time() * 1000) % 100000))
     d = work.path(name)
-    shutil.copytree(os.path.join(VERIF, 'spec'), d)
+    with _cache_lock:
+        k = 0
+        while os.path.exists(d):
+            k += 1
+            d = work.path('%s.%d' % (name, k))
+        os.makedirs(d)
+    shutil.copytree(os.path.join(VERIF, 'spec'), d, dirs_exist_ok=True)
     for fn, text in (files or {}).items():
         with open(os.path.join(d, fn), 'w') as f:
             f.write(text)
